@@ -1,5 +1,13 @@
 #!/bin/sh
+# Builds the verification machinery from files on disk only (offline).
 set -e
 cd "$(dirname "$0")"
 export GOFLAGS=-mod=mod GOPROXY=off GOSUMDB=off GOTOOLCHAIN=local
-echo "setup: placeholder"
+mkdir -p bin .cache evidence replays
+(cd simbuild && go build -o ../bin/simbuild .)
+(cd checker && go build -o ../bin/check .)
+# instrument the current tree and build simrun (plain and -race); warms the Go build cache
+./bin/check build --race
+# machinery self-test: the repository's own tests must pass on the instrumented copy
+./bin/check selftest-preservation
+echo "setup: ok"
